@@ -492,10 +492,27 @@ def _regions(dim, n, rseed):
     return [sorted(set(int(x) for x in rng.choice(nv, size=int(rng.integers(dim - 1, dim + 2)), replace=False))) for _ in range(n)]
 
 
+def _assembly_centers(dim, n):
+    """cell centres of the assembly shapes: unit vectors; in 4-D the double cover [G; -G] (for every pair either it or its antipodal twin is
+    more than a quarter turn apart -- a pre-selection of candidate pairs by the angle between centres must not lose a neighbour)"""
+    rng = np.random.default_rng(77 + 10 * dim + n)
+    if dim == 4 and n % 2 == 0:
+        G = gen_G(n // 2, 0)
+        return np.vstack([G, -G])
+    c = rng.normal(size=(n, dim))
+    return c / np.linalg.norm(c, axis=1)[:, None]
+
+
+def _assembly_base(Vm, dim):
+    """the pair loop is inherited: in 4-D from the rotation-grid class (whatever it overrides takes part), else from the abstract class"""
+    return Vm.RotobjVoronoi if dim == 4 else Vm.AbstractVoronoi
+
+
 def run_assembly(shape):
     import molgri.space.voronoi as Vm
     dim, n = shape["dim"], shape["n"]
     regions = _regions(dim, n, shape["rseed"])
+    centers = _assembly_centers(dim, n)
     eng = Engine()
     prover = Prover(timeout_ms=10000, budget_s=300)
     acc = Acc(shape)
@@ -505,11 +522,12 @@ def run_assembly(shape):
         eng.declare_sign(v, "+")
     eng.assume_global(*[v > 0 for v in list(bv.values()) + list(dv.values())])
 
-    class V(Vm.AbstractVoronoi):
+    class V(_assembly_base(Vm, dim)):
         def __init__(self):
             self.reduced_regions = regions
             self.regions = regions
-            self.centers = np.zeros((n, dim))
+            self.centers = centers.copy()
+            self.my_array = centers.copy()
 
         def _create_centers_vertices_regions(self):
             return None
@@ -557,11 +575,14 @@ def replay_assembly(cex):
     dim, n = shape["dim"], shape["n"]
     regions = _regions(dim, n, shape["rseed"])
 
-    class V(Vm.AbstractVoronoi):
+    centers = _assembly_centers(dim, n)
+
+    class V(_assembly_base(Vm, dim)):
         def __init__(self):
             self.reduced_regions = regions
             self.regions = regions
-            self.centers = np.zeros((n, dim))
+            self.centers = centers.copy()
+            self.my_array = centers.copy()
 
         def _create_centers_vertices_regions(self):
             return None
